@@ -236,6 +236,43 @@ def run(ctx, env):
                        else "only `?` / returned unchanged", site=bb.line(blk))
         level = nxt - {FFT17}
     ctx.floor("R17.7", "crate", "call sites of the per-field decoders", n7, 3)
+    # R17.8: no side door next to the gate
+    ctx.rule("R17.8", "with the feature off a per-field decoder (a direct caller of FieldValue::from_field_type) builds a FieldValue itself only for enterprise-specific fields: every FieldValue it constructs sits on the `enterprise_number` is-Some edge - a branch selected by anything else (the announced length, the data type) hands out raw bytes for field types the library does not know, which this build must refuse")
+    an8 = An(off)
+    n8 = 0
+    for pth, bb in sorted(off.bodies.items()):
+        if bb.derived or "parse_le" in pth or pth == FFT17 or pth.startswith("variable_versions::data_number::"):
+            continue
+        if not any(c is not None and c.local and c.path == FFT17 for _, _, c in bb.calls()):
+            continue
+        n8 += 1
+        ent_edges = []
+        for b2 in sorted(bb.live_blocks()):
+            t2 = bb.term(b2)
+            if t2["k"] != "switch":
+                continue
+            try:
+                ex = an8.op(bb, t2["op"])
+            except RecursionError:
+                continue
+            if not find(ex, lambda n: n[0] == "field" and n[2] == "enterprise_number"):
+                continue
+            neg = bool(find(ex, lambda n: n[0] == "call" and n[2] is not None and n[2].nsyn == "std::option::Option::is_none"))
+            zero = [tb for v, tb in t2["targets"] if v == 0]
+            nonzero = [tb for v, tb in t2["targets"] if v != 0] or [t2["otherwise"]]
+            for tb in (zero if neg else nonzero):
+                if tb is not None:
+                    ent_edges.append((b2, tb))
+        built = [(blk, s0) for blk, i0, s0 in block_aggs(bb) if s0["rv"]["adt"].endswith("data_number::FieldValue")]
+        for blk, s0 in built:
+            ok8 = any(bb.edge_dominates(e8, blk) or e8[1] == blk for e8 in ent_edges)
+            ctx.ob("R17.8", pth, "own-value-only-for-enterprise:%s" % s0["rv"].get("variant"), ok8,
+                   "FieldValue::%s built on the enterprise_number-is-Some edge" % s0["rv"].get("variant") if ok8 else
+                   "FieldValue::%s is built by the per-field decoder itself on a path not selected by `enterprise_number` being Some: a field whose type the library does not know can take it and is reported as data although parse_unknown_fields is off" % s0["rv"].get("variant"),
+                   site=site(s0["span"]))
+        if not built:
+            ctx.ob("R17.8", pth, "own-value-only-for-enterprise:none", True, "the decoder builds no FieldValue of its own", site=site(bb.span))
+    ctx.floor("R17.8", "crate", "per-field decoders calling from_field_type", n8, 2)
     # R17.6: with the feature off decodes fail part-way far more often (every unknown field), so storage that survives a
     # failed decode is what makes a later known-only packet differ from the default build
     ctx.rule("R17.6", "the records a decoder reports are made by that decode alone: every element added to the reported collection derives from the input slice, and the collection itself is created by the call - not the drained / taken content of storage kept in the parser object (a reusable buffer that a failed decode leaves half-filled would surface in a later packet); evaluated on the feature-off program: with the feature off decodes fail part-way at every unknown field, so such storage is what makes a later known-only packet differ from the default build (shared with C02 R2.10)")
